@@ -61,7 +61,7 @@ func genC14(t *rapid.T) CaseC14 {
 	for _, s := range c.PMT.Streams {
 		used[s.PID] = true
 	}
-	for c.PID = int(genBits(t, 13, "pmt-pid")); used[c.PID]; c.PID = (c.PID + 1) & 0x1FFF {
+	for c.PID = legalPID(int(genBits(t, 13, "pmt-pid"))); used[c.PID]; c.PID = nextLegalPID(c.PID) {
 	}
 	used[c.PID] = true
 	c.CC = rapid.IntRange(0, 15).Draw(t, "cc")
